@@ -313,7 +313,8 @@ async fn read_payload(recv: &mut RecvStream, want: &[u8], ops: &[ROp], p: Pace, 
         Ok(())
     };
     loop {
-        let eof = match &ops[k % ops.len()] {
+        let op = &ops[k % ops.len()];
+        let eof = match op {
             ROp::Read(cap) => {
                 let cap = (*cap as usize).max(1);
                 let compio_buf::BufResult(r, buf) = recv.read(Vec::with_capacity(cap)).await;
@@ -358,8 +359,12 @@ async fn read_payload(recv: &mut RecvStream, want: &[u8], ops: &[ROp], p: Pace, 
                     None => true,
                 }
             }
-            ROp::ToEnd => {
-                let compio_buf::BufResult(r, buf) = recv.read_to_end(Vec::new()).await;
+            ROp::ToEnd | ROp::ToEndCap(_) => {
+                let dst = match op {
+                    ROp::ToEndCap(c) => Vec::with_capacity(*c as usize),
+                    _ => Vec::new(),
+                };
+                let compio_buf::BufResult(r, buf) = recv.read_to_end(dst).await;
                 let n = r.map_err(|e| io_family(&e))?;
                 if n != buf.len() {
                     return Err(End::Bad("read-count".into(), format!("read_to_end reported {n} but the buffer holds {}", buf.len())));
